@@ -62,6 +62,8 @@ fn main() {
 fn dispatch(id: &str, tier: Tier) -> i32 {
     match id {
         "C06" => props::c06::run(tier),
+        "C09" => props::c09::run(tier),
+        "C11" => props::c11::run(tier),
         "C14" => props::c14::run(tier),
         _ => {
             eprintln!("MACHINERY-ERROR: no check registered for {}", id);
